@@ -14,7 +14,7 @@ use std::sync::Arc;
 
 pub struct C13;
 
-const NODE_BUDGET: usize = 4000;
+const NODE_BUDGET: usize = 20000;
 
 #[derive(Clone, Copy, PartialEq, Eq, Debug)]
 enum Hot {
@@ -125,9 +125,10 @@ fn thread_ctx(t: usize) -> CtxSpec {
     CtxSpec { vars: vec![("v".into(), Val::int(10 + t as i64)), ("x".into(), Val::int(t as i64))], funcs: vec![] }
 }
 
-fn gen_s(r: &mut Prng) -> Case {
+fn gen_s(r: &mut Prng, big: bool) -> Case {
     let mut case = Case::new("S");
-    let nthreads = 2 + r.usize(3);
+    // thorough tier: up to 5 threads x 4 calls
+    let nthreads = 2 + r.usize(if big { 4 } else { 3 });
     let race = r.chance(1, 2);
     let nhot = 1 + r.usize(3);
     let mut hot: Vec<Hot> = vec![];
@@ -161,7 +162,7 @@ fn gen_s(r: &mut Prng) -> Case {
     }
     let mut any_reg = false;
     for t in 0..nthreads {
-        let n = 1 + r.usize(3);
+        let n = 1 + r.usize(if big { 4 } else { 3 });
         let mut ops = vec![];
         for _ in 0..n {
             if r.chance(2, 5) {
@@ -410,9 +411,8 @@ impl Prop for C13 {
         let (case, nsched) = if idx % 25 == 24 {
             (template(TEMPLATES[((idx / 25) % 4) as usize]), 400u64)
         } else {
-            (gen_s(&mut r), 40u64)
+            (gen_s(&mut r, tier == Tier::Thorough), if tier == Tier::Thorough { 60u64 } else { 40u64 })
         };
-        let _ = tier;
         let case = Arc::new(case);
         rt.case_seen(case.fingerprint());
         let mut oracle = SeqOracle::new(&case);
